@@ -55,6 +55,7 @@ type Sched struct {
 	Quiet     map[string]bool          // points where the running thread continues without a scheduling choice
 	Interesting map[string]bool        // when non-nil: every point not listed here is quiet
 	Terminal  map[string]bool          // points after which the thread never reports again
+	Daemon    map[string]bool          // threads that may stay parked forever (idle library goroutines)
 	Override  map[string]func() bool   // enabledness by point name, overriding the hook's own predicate
 	Steps     []Step
 	Deadlock  bool
@@ -83,6 +84,7 @@ func New() *Sched {
 		events:    make(chan event, 1024),
 		Quiet:     map[string]bool{},
 		Terminal:  map[string]bool{},
+		Daemon:    map[string]bool{},
 		Override:  map[string]func() bool{},
 		MaxSteps:  100000,
 		StuckWait: 5 * time.Second,
@@ -340,7 +342,11 @@ func (s *Sched) Run(choose Chooser) {
 			}
 		}
 		if len(en) == 0 {
-			s.Deadlock = true
+			for _, th := range live {
+				if !s.Daemon[th.name] {
+					s.Deadlock = true
+				}
+			}
 			return
 		}
 		sort.Slice(en, func(i, j int) bool { return en[i].name < en[j].name })
